@@ -5,14 +5,23 @@
 (*           against them                                                                       *)
 (*  "map"    one state per (mapping, argument): key algebra of dictattr / Dict                  *)
 (*  "call"   a real state machine for Dict.__call__: one Eval(k) action per evaluation of a     *)
-(*           definition, for EVERY dependency graph without self-loops on <= 4 derived keys;    *)
-(*           TLC explores every evaluation order: confluence, "cyclic <=> stuck", and the code's *)
-(*           layer-by-layer mechanism against the law                                           *)
+(*           definition, for EVERY dependency graph without self-loops on <= 4 derived keys     *)
+(*           whose edges are required parameters, and for the graphs whose edges carry a KIND   *)
+(*           (required / defaulted / keyword-only / keyword-only defaulted parameter) on <= 3   *)
+(*           keys (thorough: 4 keys, <= MaxE4 edges); the definitions also read the mapping     *)
+(*           through parameters of every kind, name keys nobody provides through defaulted      *)
+(*           ones, and two of them declare *args / **kwargs.  TLC explores every evaluation     *)
+(*           order: confluence, "cyclic <=> stuck", and the code's layer-by-layer mechanism in  *)
+(*           EVERY keyword order against the law                                                *)
 (* With NEXT Gen* the same state spaces print every case with the outcome the specification     *)
 (* expects (S2C).                                                                               *)
 EXTENDS Algebra, TLC, Json
 CONSTANTS MaxLen,     \* longest raw list handed to ulist()
-          MaxLenX     \* longest operand list
+          MaxLenX,    \* longest operand list
+          Kinds2,     \* kinds an edge may have in the dependency graphs on <= 2 derived keys
+          Kinds3,     \* ... on 3 derived keys
+          Kinds4,     \* ... on 4 derived keys, in the graphs with at most
+          MaxE4       \*     MaxE4 edges (every all-required graph on 4 keys is there anyway)
 
 VARIABLES mode, a, b, pending, m, go
 vars == <<mode, a, b, pending, m, go>>
@@ -35,23 +44,48 @@ MapU   == MapsOver(MKey, MVal)
 SelU   == {<<"elem", k>> : k \in {"a", "_c", "z"}} \cup {<<"list", s>> : s \in SeqsUpTo({"a", "b", "_c", "z"}, 2)}
 OtherU == MapsOver({"b", "_c", "z"}, {VInt(2), None})
 RenU   == UNION {[S -> {"a", "b", "_c", "n"}] : S \in SUBSET {"a", "_c", "z"}}
+\* relabel spelled with a blanket rule AND individual relabels in one call
+BlankU == {<<"prefix", "x_">>, <<"suffix", "_x">>} \cup {<<"map", r>> : r \in UNION {[S -> {"b", "n"}] : S \in SUBSET {"a", "_c"}}}
+IndivU == UNION {[S -> {"b", "n"}] : S \in SUBSET {"a", "z"}}
 ArgU   == {<<"sel", x>> : x \in SelU} \cup {<<"keys", s>> : s \in SeqsUpTo({"a", "b", "_c", "z"}, 2)}
           \cup {<<"other", o>> : o \in OtherU} \cup {<<"ren", r>> : r \in RenU}
+          \cup {<<"ren2", <<bl, iv>>>> : bl \in BlankU, iv \in IndivU}
 InitMap == mode = "map" /\ a \in MapU /\ b \in ArgU /\ pending = {} /\ m = Nil
 
-\* --- "call": a = par (derived key -> parameter names), pending, m -----------------------------
+\* --- "call": a = [par, kin, star, shape] (derived key -> parameter names / their kinds / stars / shape), pending, m ------
 \* a base key is called "key": Dict.__call__ hands every definition a hidden default key = <its name>, which an entry
 \* of the mapping with that name must trump (arguments are taken by name from the mapping)
 Base   == [p |-> VInt(1), key |-> VStr("s")]
 KeyOrd == <<"p", "w", "x", "y", "z">>
-Extra  == [p |-> <<"key">>, w |-> <<"p">>, x |-> <<>>, y |-> <<"p", "key">>, z |-> <<>>]     \* parameters read from the mapping
-OrdSeq(S) == SelectSeq(KeyOrd, LAMBDA k : k \in S)
+NameOrd == <<"key", "n", "p", "w", "x", "y", "z">>
+\* parameters that do not name a derived key, <<name, kind>>: read from the mapping through every kind of
+\* parameter ("p", "key"), or naming nothing at all ("n": the parameter's default is used)
+Extra  == [p |-> {<<"key", "req">>},
+           w |-> {<<"p", "req">>, <<"n", "opt">>},
+           x |-> {<<"p", "opt">>},
+           y |-> {<<"p", "req">>, <<"key", "kwopt">>},
+           z |-> {<<"key", "kwreq">>, <<"n", "kwopt">>}]
+Star   == [p |-> "", w |-> "", x |-> "kw", y |-> "args", z |-> "args_kw"]
+Shape  == [p |-> "def", w |-> "obj", x |-> "def", y |-> "partial", z |-> "obj"]
 \* derived keys: any subset of w..z, or (shadowing) subsets of {p, x, y} that redefine the base key p
 DSets  == (SUBSET {"w", "x", "y", "z"}) \cup {S \in SUBSET {"p", "x", "y"} : "p" \in S}
-ParsOf(D) == {[k \in D |-> SelectSeq(Extra[k], LAMBDA q : q \notin D) \o OrdSeq(f[k])] :
-                 f \in {g \in [D -> SUBSET D] : \A k \in D : k \notin g[k]}}
-ParU   == UNION {ParsOf(D) : D \in DSets}
-InitCall == mode = "call" /\ a \in ParU /\ b = Nil /\ pending = DOMAIN a /\ m = Base
+\* a dependency graph on D: a function from its edges <<k, q>> (k takes q as a parameter) to the kind of that parameter
+Pairs(D) == {e \in D \X D : e[1] # e[2]}
+\* on <= 2 / 3 derived keys every graph with edges of the kinds Kinds2 / Kinds3; on 4 keys every graph of required
+\* parameters, and the graphs of at most MaxE4 edges of the kinds Kinds4
+KindingsOf(D, E) == CASE Cardinality(D) <= 2 -> [E -> Kinds2]
+                      [] Cardinality(D) = 3  -> [E -> Kinds3]
+                      [] OTHER               -> [E -> {"req"}] \cup (IF Cardinality(E) <= MaxE4 THEN [E -> Kinds4] ELSE {})
+\* the parameters of definition k in a legal declaration order: by kind, then by name
+ParamsOf(k, D, g) == {e \in Extra[k] : e[1] \notin D} \cup {<<q, g[<<k, q>>]>> : q \in {q \in D : <<k, q>> \in DOMAIN g}}
+\* (all <<name, kind>> in declaration order: positional without a default, with one, keyword-only without, with)
+AllParams == [i \in 1..(4 * Len(NameOrd)) |-> <<NameOrd[((i - 1) % Len(NameOrd)) + 1], <<"req", "opt", "kwreq", "kwopt">>[((i - 1) \div Len(NameOrd)) + 1]>>]
+ParamSeq(k, D, g) == LET ps == ParamsOf(k, D, g) IN SelectSeq(AllParams, LAMBDA e : e \in ps)
+DefsOf(D, g) == [par  |-> [k \in D |-> LET s == ParamSeq(k, D, g) IN [i \in 1..Len(s) |-> s[i][1]]],
+                 kin  |-> [k \in D |-> LET s == ParamSeq(k, D, g) IN [i \in 1..Len(s) |-> s[i][2]]],
+                 star |-> [k \in D |-> Star[k]], shape |-> [k \in D |-> Shape[k]]]
+InitCall == /\ mode = "call" /\ b = Nil /\ m = Base
+            /\ \E D \in DSets : \E E \in SUBSET Pairs(D) : \E g \in KindingsOf(D, E) : a = DefsOf(D, g) /\ pending = D
 
 Init == (InitUlist \/ InitMap \/ InitCall) /\ go = FALSE
 
@@ -60,11 +94,12 @@ Init == (InitUlist \/ InitMap \/ InitCall) /\ go = FALSE
 CallUlist == mode = "ulist" /\ ~go /\ go' = TRUE /\ UNCHANGED args
 CallMap   == mode = "map" /\ ~go /\ go' = TRUE /\ UNCHANGED args
 Start     == mode = "call" /\ ~go /\ go' = TRUE /\ UNCHANGED args
-Eval(k)   == /\ mode = "call" /\ go /\ CanEval(k, pending, a)
-             /\ m' = Put(m, k, ValOf(k, a[k], m)) /\ pending' = pending \ {k}
+Eval(k)   == /\ mode = "call" /\ go /\ CanEval(k, pending, a.par)
+             /\ m' = Put(m, k, ValOf(k, a.par[k], m)) /\ pending' = pending \ {k}
              /\ UNCHANGED <<mode, a, b, go>>
 EvalSome  == \E k \in {"p", "w", "x", "y", "z"} : Eval(k)
 Next == CallUlist \/ CallMap \/ Start \/ EvalSome
+NextCall == Start \/ EvalSome
 
 \* --- ulist laws ---------------------------------------------------------------------------------
 OnU == mode = "ulist" /\ go
@@ -112,17 +147,41 @@ RelabelLaw  == OnM("ren") => LET r == Relabel(a, b[2]) IN
                              ~Collides(a, b[2]) => /\ Cardinality(DOMAIN r) = Len(a)
                                                    /\ \A k \in KeySet(a) : r[NewKey(b[2], k)] = At(a, k)
                                                    /\ Relabel(a, <<>>) = AsFun(a)
+BlanketLaw  == OnM("ren2") => LET bl == b[2][1]  iv == b[2][2]  ren == Renaming(a, bl, iv)  r == Relabel(a, ren) IN
+                             /\ \A k \in KeySet(a) \cap DOMAIN iv : NewKey(ren, k) = iv[k]                       \* individual relabels win
+                             /\ \A k \in KeySet(a) \ DOMAIN iv : NewKey(ren, k) = NewKey(BlanketOf(a, bl), k)     \* the rest follows the blanket rule
+                             /\ Renaming(a, bl, <<>>) = BlanketOf(a, bl) /\ Renaming(a, <<"none">>, iv) = iv
+                             /\ ~Collides(a, ren) => /\ Cardinality(DOMAIN r) = Len(a)
+                                                     /\ \A k \in KeySet(a) : r[NewKey(ren, k)] = At(a, k)
 
 \* --- Dict.__call__ ------------------------------------------------------------------------------
 OnC == mode = "call" /\ go
-DomainOk         == mode = "call" => NoSelfLoops(a) /\ Grounded(a, Base)
-EvaluatedAreFinal == OnC => \A k \in (DOMAIN a) \ pending : m[k] = Fin(k, a, Base)
-Confluence       == (OnC /\ pending = {}) => <<"map", m>> = Outcome(a, Base)        \* every complete behaviour ends in the same mapping
-StuckOnlyIfCyclic == (OnC /\ Stuck(pending, a)) => Cyclic(a)
-DoneOnlyIfAcyclic == (OnC /\ pending = {}) => ~Cyclic(a)
-CyclicNeverDone  == (OnC /\ Cyclic(a)) => pending # {} /\ Outcome(a, Base) = Raises("ValueError")
-OthersUntouched  == OnC => \A k \in (DOMAIN Base) \ (DOMAIN a) : m[k] = Base[k]
-LayeredIsLaw     == (OnC /\ pending = DOMAIN a) => Layered(DOMAIN a, Base, a) = Outcome(a, Base)
+PermSeqs(S) == {s \in [1..Cardinality(S) -> S] : Injective(s)}                       \* the keyword orders
+DomainOk         == mode = "call" => /\ WellFormed(a.par, a.kin, a.star, a.shape) /\ NoSelfLoops(a.par)
+                                     /\ Grounded(a.par, a.kin, Base) /\ NoHiddenKey(a.par, Base)
+EvaluatedAreFinal == OnC => \A k \in (DOMAIN a.par) \ pending : m[k] = Fin(k, a.par, Base)
+Confluence       == (OnC /\ pending = {}) => <<"map", m>> = Outcome(a.par, Base)        \* every complete behaviour ends in the same mapping
+StuckOnlyIfCyclic == (OnC /\ Stuck(pending, a.par)) => Cyclic(a.par)
+DoneOnlyIfAcyclic == (OnC /\ pending = {}) => ~Cyclic(a.par)
+CyclicNeverDone  == (OnC /\ Cyclic(a.par)) => pending # {} /\ Outcome(a.par, Base) = Raises("ValueError")
+OthersUntouched  == OnC => \A k \in (DOMAIN Base) \ (DOMAIN a.par) : m[k] = Base[k]
+\* what a definition received through each parameter: the final value of a derived key, else the mapping's entry,
+\* and its own default exactly when the name is nowhere - whatever the kind of the parameter
+ArgumentsByName  == OnC => \A k \in (DOMAIN a.par) \ pending : \A i \in 1..Len(a.par[k]) :
+                              LET p == a.par[k][i]  got == m[k][2][i + 1] IN
+                              /\ p \in DOMAIN a.par => got = m[p] /\ p \notin pending
+                              /\ (p \notin DOMAIN a.par /\ p \in DOMAIN Base) => got = Base[p]
+                              /\ (got = Dflt(k, p)) <=> (p \notin DOMAIN a.par \cup DOMAIN Base)
+                              /\ (got = Dflt(k, p)) => HasDefault(a.kin[k][i])
+\* the code's mechanism with today's dependencies (every named parameter), in every keyword order
+LayeredIsLaw     == (OnC /\ pending = DOMAIN a.par) =>
+                        \A ord \in PermSeqs(DOMAIN a.par) : Layered(ord, Base, a.par, DepAll(a.par)) = Outcome(a.par, Base)
+\* variants of the mechanism that do NOT implement the law (each is a must_fail configuration): defaulted
+\* parameters / keyword-only parameters do not make a definition wait
+ReqOnlyIsLaw     == (OnC /\ pending = DOMAIN a.par) =>
+                        \A ord \in PermSeqs(DOMAIN a.par) : Layered(ord, Base, a.par, DepRequired(a.par, a.kin)) = Outcome(a.par, Base)
+PositionalIsLaw  == (OnC /\ pending = DOMAIN a.par) =>
+                        \A ord \in PermSeqs(DOMAIN a.par) : Layered(ord, Base, a.par, DepPositional(a.par, a.kin)) = Outcome(a.par, Base)
 
 \* --- S2C generators -------------------------------------------------------------------------------
 GenUlist == /\ mode = "ulist" /\ ~go /\ go' = TRUE /\ UNCHANGED args
@@ -133,9 +192,11 @@ GenMap   == /\ mode = "map" /\ ~go /\ go' = TRUE /\ UNCHANGED args
                               out |-> CASE b[1] = "sel"   -> [minus |-> Minus(a, b[2]), and |-> And(a, b[2])]
                                         [] b[1] = "keys"  -> [select |-> Select(a, b[2]), multiget |-> MultiGet(a, b[2])]
                                         [] b[1] = "other" -> [plus |-> Plus(a, b[2])]
-                                        [] b[1] = "ren"   -> [collides |-> Collides(a, b[2]), relabel |-> Relabel(a, b[2])]]))
+                                        [] b[1] = "ren"   -> [collides |-> Collides(a, b[2]), relabel |-> Relabel(a, b[2])]
+                                        [] b[1] = "ren2"  -> LET ren == Renaming(a, b[2][1], b[2][2]) IN
+                                                             [collides |-> Collides(a, ren), relabel |-> Relabel(a, ren)]]))
 GenCall  == /\ mode = "call" /\ ~go /\ go' = TRUE /\ UNCHANGED args
-            /\ PrintT(ToJson([op |-> "call", par |-> a, base |-> Base, out |-> Outcome(a, Base)]))
+            /\ PrintT(ToJson([op |-> "call", par |-> a.par, kin |-> a.kin, star |-> a.star, shape |-> a.shape, base |-> Base, out |-> Outcome(a.par, Base)]))
 NextGen == GenUlist \/ GenMap \/ GenCall
 InitGenUlist == InitUlist /\ go = FALSE
 InitGenMap   == InitMap /\ go = FALSE
